@@ -25,12 +25,16 @@ Proof. exact send_spec. Qed.
 (* authoritative: service ahead, same TXID with another checksum, or a needed file missing => restore, and
    the restore adopts the service's position without touching the service *)
 Theorem C14_restore_cases : forall ex lpos dir rpos,
-  ex = true -> is_zero lpos = false -> is_zero rpos = false ->
+  ex = true -> is_zero rpos = false ->
   (fst lpos < fst rpos -> backup_decide ex lpos dir rpos = BRestore 2) /\
   (fst rpos = fst lpos -> snd rpos <> snd lpos -> backup_decide ex lpos dir rpos = BRestore 3) /\
   (fst rpos < fst lpos -> (exists t, fst rpos < t <= N.min (fst lpos) (fst rpos + max_batch) /\ open_ltx dir t = None) ->
      backup_decide ex lpos dir rpos = BRestore 4).
 Proof. exact restore_cases. Qed.
+(* ... in particular a primary whose database is still empty (the application has opened the file and written nothing)
+   while the service holds data: the service is ahead, its copy is adopted *)
+Theorem C14_empty_local_adopts : forall dir rpos, 0 < fst rpos -> backup_decide true (0, 0) dir rpos = BRestore 2.
+Proof. exact empty_local_adopts. Qed.
 Theorem C14_restore_adopts : forall b r,
   backup_decide (b_exists b) (b_lpos b) (b_dir b) (s_pos (b_svc b)) = BRestore r ->
   is_zero (s_pos (b_svc b)) = false ->
